@@ -178,3 +178,32 @@ Proof.
     (asm_step _ e 24 32), (asm_step _ f 16 24), (asm_step _ g 8 16), (asm_step _ h 0 8) by (auto; reflexivity).
   cbn [unbe rev app unle]. lia.
 Qed.
+
+(* ---------- phase 4: the whole of Decoder.unmarshal for interface{} and typed scalar / slice destinations, and
+   dynbt's Value.unmarshal, generated statement by statement (every case body, the element loops with their
+   bounds, the destination-kind switches, the compound loop with its TagEnd test) ARE the model's decoders ---------- *)
+Theorem unmarshal_any_tie : gen_any = dany.
+Proof. reflexivity. Qed.
+Theorem unmarshal_ty_tie : gen_ty = dty.
+Proof. reflexivity. Qed.
+Theorem dynbt_readers_tie : gen_dyn_readString = rd_string /\ gen_dyn_readTag = rd_tag_dyn.
+Proof. split; reflexivity. Qed.
+Theorem dynbt_unmarshal_tie : gen_dyn = ddyn.
+Proof. reflexivity. Qed.
+(* package dynbt has its own copy of the nesting constant *)
+Theorem dynbt_depth_const : dynbt_maxNestingDepth = nbt_maxNestingDepth.
+Proof. reflexivity. Qed.
+
+(* struct-side destinations (Model/C03.v): the TagCompound case into a struct (field lookup by exact name then
+   case folding, unknown fields skipped with rawRead) and into a map, the TagList case into a slice of structs and
+   into an array (length test, in-place loop) are the generated ones, with dst itself as the recursive call *)
+Theorem dst_struct_tie : forall f dep fs cur, dst (S f) dep (SStruct fs) cur idCompound = gen_st_struct dst f dep fs cur.
+Proof. reflexivity. Qed.
+Theorem dst_map_tie : forall f dep cur, dst (S f) dep SMap cur idCompound = gen_st_map f dep cur.
+Proof. reflexivity. Qed.
+Theorem dst_list_tie : forall f dep t cur, (forall e, t <> SB e) -> dst (S f) dep (SList t) cur idList = gen_st_list dst f dep t.
+Proof. intros f dep t cur H. destruct t; try reflexivity. exfalso. now apply (H t). Qed.
+Theorem dst_array_tie : forall f dep n t cur,
+  dst (S f) dep (SArr n t) cur idList =
+  gen_st_array f dep t (match cur with YArr l => l | _ => repeat (zero_ty t) (N.to_nat n) end).
+Proof. reflexivity. Qed.
